@@ -286,7 +286,11 @@ SLUG_INPUTS = ('Hello World', '\xc0\xc9 caf\xe9', '™ trade', '№5',
                'MHz ㎒', 'foo_bar', 'tab\tsep', '\xdf', 'İ', '',
                'A  B', '-a-', 'a - b', 'x\n\ny', '\U0001d400bold',
                'Cℂ', 'already-a-slug_1', 'UPPER', 'hello\n', 'a-b\n',
-               'slug\r\n', 'x_y-z', '-', '--', '_', 'a\tb', 'Ångström')
+               'slug\r\n', 'x_y-z', '-', '--', '_', 'a\tb', 'Ångström',
+               # letters / numbers whose compatibility decomposition
+               # contains ASCII punctuation
+               '\u2474', 'x\u2488y', '\U0001f102', '\u3220', '\u2160.',
+               '\u00bd', '\u2100', '\u33c2', '1\u2044 2')
 SLUG_OK = re.compile(r'[a-z0-9_-]*\Z')
 
 
